@@ -606,11 +606,11 @@ class SDict(dict[K, V]):
         from dictIO import NativeFormatter
 
         formatter = NativeFormatter()
+        # the raw file name is registered (the writer formats it when it re-emits the directive)
         include_file_name = str(relative_file_path)
-        include_file_name = include_file_name.replace("\\", "\\\\")
-        include_file_name = formatter.format_value(include_file_name)
+        _formatted_file_name = formatter.format_value(include_file_name.replace("\\", "\\\\"))
 
-        include_directive = f"#include {include_file_name}"
+        include_directive = f"#include {_formatted_file_name}"
 
         ii: int = 0
         placeholder: str = ""
